@@ -31,11 +31,15 @@ theorem const_table_agrees :
     Avo.Gen.constTable.length = expectedConstTable.length := by decide
 
 /-- Floats are printed with the shortest decimal that identifies the value in
-its own precision (`FormatFloat(x, 'f', -1, bits)`, bits = 32 / 64), with `.0`
-appended to integral values. (Whether that text survives the assembler is the
-measured part of C13.) -/
+its own precision (`FormatFloat(x, 'f', -1, bits)`, `.0` appended to integral
+values): F64 with 64 bits; F32 with 32 bits, falling back to the float64-exact
+decimal when the assembler's conversion (ParseFloat 64, then float32) would not
+give the value back (fix of F11).  Whether the text survives the assembler is
+the measured part of C13. -/
 theorem float_format_agrees :
-    Avo.Gen.floatStringBits = [("F32", "32"), ("F64", "64")] ∧
+    Avo.Gen.floatStringBits =
+      [("F32", ["32", "64"], ["strconv.ParseFloat(s,64);err!=nil||float32(x)!=float32(f)"]),
+       ("F64", ["64"], [])] ∧
     Avo.Gen.asmfloatFormat = ("'f'", "-1", "bits", "\".0\"") := by decide
 
 end Avo.Data
